@@ -7,7 +7,7 @@ From OV Require Import Base.Panic Base.Arith Model.Vector Model.Matrix Model.Spa
 From OV Require Import Proofs.SparseBase Proofs.SparseMul Proofs.IterSparse Proofs.IterSparseErr Proofs.IterSparseR
   Proofs.IterSparseBreakdown Proofs.IterCGExamples.
 From OV Require Import Proofs.SparseBase Proofs.SparseMul Proofs.IterR Proofs.IterSparse Proofs.IterSparseR Proofs.IterSparseBreakdown Proofs.IterSparseBreakdownField
-  Proofs.IterCGVec Proofs.IterCGDim Proofs.IterCG Proofs.IterCGR Proofs.IterCGSparse Proofs.IterCGExamples.
+  Proofs.IterCGVec Proofs.IterCGDim Proofs.IterCG Proofs.IterCGR Proofs.IterCGBi Proofs.IterCGSparse Proofs.IterCGExamples.
 Import ListNotations.
 Module C08.
 (* the hypothesis LinOp of ok_means_solved / residual_invariant_* / exact_guess_ok0 discharged for EVERY well-formed square
@@ -479,6 +479,55 @@ Check cg_error_monotone_sparse_R : forall (s : sparse AR) (b x0 xs : list R) max
 Print Assumptions cg_error_monotone_sparse_R.
 Example cg_error_monotone_sparse_R_nonvacuous : wfS exr_s /\ sp_symmetric exr_s.
 Proof. split; [exact exr_s_wf | exact exr_s_sym]. Qed.
+
+(* on a symmetric matrix the model's BiCG IS its CG (exact arithmetic, any field): if transpose_multiply agrees with multiply on vectors of
+   length n, whatever solve_cg returns -- Ok k or Err e, and x -- solve_bicg returns too, for both error measures (only the ghost differs) *)
+Theorem bicg_is_cg_on_symmetric : forall (A : SArith), FieldLaws (SA A) ->
+  forall n (mulA mulAT : list (T (SA A)) -> res (list (T (SA A)))), LinOp n mulA ->
+  (forall v, length v = n -> mulAT v = mulA v) ->
+  forall itol (b x0 : list (T (SA A))) max tol res x g, itol = 1 \/ itol = 2 ->
+  solve_cg mulA n n b x0 max tol = Ok (res, x, g) ->
+  exists g', solve_bicg mulA mulAT n n itol b x0 max tol = Ok (res, x, g').
+Proof. intros A FL n mulA mulAT LO TS itol b x0 max tol res x g. exact (bicg_is_cg_on_symmetric FL n mulA mulAT LO TS itol b x0 max tol res x g). Qed.
+Check bicg_is_cg_on_symmetric : forall (A : SArith), FieldLaws (SA A) ->
+  forall n (mulA mulAT : list (T (SA A)) -> res (list (T (SA A)))), LinOp n mulA ->
+  (forall v, length v = n -> mulAT v = mulA v) ->
+  forall itol (b x0 : list (T (SA A))) max tol res x g, itol = 1 \/ itol = 2 ->
+  solve_cg mulA n n b x0 max tol = Ok (res, x, g) ->
+  exists g', solve_bicg mulA mulAT n n itol b x0 max tol = Ok (res, x, g').
+Print Assumptions bicg_is_cg_on_symmetric.
+Example bicg_is_cg_on_symmetric_nonvacuous : LinOp 2 (@sp_mul AQ exq_s) /\ (forall v : list AQ, length v = 2 -> sp_tmul exq_s v = sp_mul exq_s v) /\
+  exists x g, @solve_cg SAQ (@sp_mul AQ exq_s) 2 2 [q 1 1; q 2 1] [q 2 1; q 1 1] 10 (q 1 1000) = Ok (IOk 2, x, g).
+Proof. split; [exact exq_lin|]. split; [exact (sp_tmul_eq_mul_sym AQ_RingLaws exq_s 2 exq_s_wf eq_refl eq_refl exq_s_sym)|].
+  apply (@ok_k_witness SAQ). vm_compute. reflexivity. Qed.
+
+(* ... and every CSC storage whose denoted matrix is symmetric satisfies that hypothesis *)
+Theorem sparse_symmetric_tmul_is_mul : forall (A : Arith), RingLaws A -> forall (s : sparse A) n,
+  wfS s -> sp_rows s = n -> sp_cols s = n -> sp_symmetric s ->
+  forall v, length v = n -> sp_tmul s v = sp_mul s v.
+Proof. intros A RL s n. exact (sp_tmul_eq_mul_sym RL s n). Qed.
+Check sparse_symmetric_tmul_is_mul : forall (A : Arith), RingLaws A -> forall (s : sparse A) n,
+  wfS s -> sp_rows s = n -> sp_cols s = n -> sp_symmetric s ->
+  forall v, length v = n -> sp_tmul s v = sp_mul s v.
+Print Assumptions sparse_symmetric_tmul_is_mul.
+Example sparse_symmetric_tmul_is_mul_nonvacuous : wfS exq_s /\ sp_symmetric exq_s.
+Proof. split; [exact exq_s_wf | exact exq_s_sym]. Qed.
+
+(* hence the convergence theorem transfers: BiCG (either error measure) on an SPD storage of order n over R answers Ok within n iterations, solved *)
+Theorem bicg_terminates_spd_sparse_R : forall (s : sparse AR) itol (b x0 : list R) max (tol : R),
+  wfS s -> sp_rows s = sp_cols s -> sp_symmetric s -> sp_posdef s -> itol = 1 \/ itol = 2 ->
+  length b = sp_rows s -> length x0 = sp_rows s -> (0 <= tol)%R -> sp_rows s <= max ->
+  exists k x g, @run_sparse SAR (BiCG itol) s b x0 max tol = Ok (IOk k, x, g) /\ k <= sp_rows s /\
+    (@norm2 SAR (@zipw AR Rminus b (@sp_apply AR s x)) <= tol * @nz SAR (@norm2 SAR b))%R.
+Proof. intros s itol b x0 max tol. exact (bicg_terminates_spd_sparse_R s itol b x0 max tol). Qed.
+Check bicg_terminates_spd_sparse_R : forall (s : sparse AR) itol (b x0 : list R) max (tol : R),
+  wfS s -> sp_rows s = sp_cols s -> sp_symmetric s -> sp_posdef s -> itol = 1 \/ itol = 2 ->
+  length b = sp_rows s -> length x0 = sp_rows s -> (0 <= tol)%R -> sp_rows s <= max ->
+  exists k x g, @run_sparse SAR (BiCG itol) s b x0 max tol = Ok (IOk k, x, g) /\ k <= sp_rows s /\
+    (@norm2 SAR (@zipw AR Rminus b (@sp_apply AR s x)) <= tol * @nz SAR (@norm2 SAR b))%R.
+Print Assumptions bicg_terminates_spd_sparse_R.
+Example bicg_terminates_spd_sparse_R_nonvacuous : wfS exr_s /\ sp_rows exr_s = sp_cols exr_s /\ sp_symmetric exr_s /\ sp_posdef exr_s.
+Proof. destruct exr_spd_hyps as (H1 & H2 & H3 & H4 & _). auto. Qed.
 
 (* (3) ANY arithmetic (floats included), any products, any sizes.  The ghost exit code g_exit names the `return` taken (Model/Iter.v).
    BiCGSTAB: an Err is budget exhaustion (2), the `rho_1 == 0` exit (10) or the `omega == 0` exit (11), nothing else *)
